@@ -5,6 +5,30 @@ NOTES = ("Technique: machine-checked proof in Lean 4 of theorems about a hand-wr
 NOT_APPLICABLE_REASON = {}
 
 CLAIMS = {
+ "C03": {
+  "text": "Lean theorems (storage level) prove that no operation other than a commit changes the ledger, that a successful commit followed by ANY commit-free history and a crash leaves a reopened storage showing exactly the commit-time view of every owned identifier, and that temporary-address slabs are never written, for every history. The container level is tied by correspondence: array model + storage state machine reproduce every decoded register after every commit and the reopened tree after every crash. Partial: the container-level theorem effects_complete and the codec round trip are validated by correspondence / C07, not yet proved here.",
+  "design_ref": "DESIGN.md 7/C03",
+  "note": "Trusted: as C15; plus the generated fact baseStoreCallers/baseRemoveCallers (only commit functions write the ledger).",
+  "technique": "Lean 4 proof over the storage state machine + regenerated source fact + model/implementation correspondence of committed registers",
+ },
+ "C04": {
+  "text": "Proved in Lean: the deterministic commit issues calls in strictly ascending (owner,index) order for every write set; its result is independent of worker count and goroutine schedule (message-passing pool model, any finishing schedule); the order-relaxed commit leaves the same ledger and issues the same multiset of calls; source premises regenerated (worker closures write-free, pools reset). NOT proved (runtime): Go map iteration order, sync.Pool reuse, process identity - exercised by running each history under 60 configurations and in a fresh process and requiring byte-identical registers.",
+  "design_ref": "DESIGN.md 7/C04",
+  "note": "Partial by nature: the theorem covers the logic (ordering, arrival-order invariance); runtime nondeterminism is validated by the multi-run oracle only.",
+  "technique": "Lean 4 proof (sortedness, schedule invariance of a message-passing pool model) + regenerated syntactic facts + multi-configuration byte comparison",
+ },
+ "C08": {
+  "text": "Proved in Lean for the value-level storage model: any two schedules of {commit (either kind), drop cache, commit+reopen} interleaved with the same client history yield the same observations, the same view and, after a final commit, the same ledger. Tie: storage correspondence; oracle: the same container histories under six schedules on the real code give equal observations, content, validity and registers. Partial: Go handles keep pointers; the theorem is about clients that re-fetch handles after a cache drop.",
+  "design_ref": "DESIGN.md 7/C08",
+  "note": "Trusted: as C15. Pointer aliasing between stale handles and the cache is not modelled (finding F2 territory).",
+  "technique": "Lean 4 simulation proof between maintenance schedules + schedule-differential oracle on the implementation",
+ },
+ "C16": {
+  "text": "Proved in Lean for a message-passing model of the three worker pools: under every scheduler choice sequence the results are a permutation of the jobs, the result channel never exceeds its capacity, the pool terminates under a fair schedule, and commit/preload with any worker count equal the sequential run. NOT proved: Go memory-model races, preemption, sync.Pool internals - exercised with the race detector and concurrent independent clients compared with running alone.",
+  "design_ref": "DESIGN.md 7/C16",
+  "note": "Partial by nature (runtime behaviour). Premise workerClosuresWriteFree regenerated from source.",
+  "technique": "Lean 4 proof over a message-passing pool model + race-detector and concurrent-vs-alone differential runs",
+ },
  "C20": {
   "text": "Lean theorems prove, for EVERY heap of loaded slabs, that the (repaired) health check accepts exactly the healthy heaps and returns the true root set (health_sound, health_complete), that each of the four corruption kinds applied to any healthy heap at any slab is rejected, and that the all-child-references query is exact on healthy heaps. The model is tied to CheckStorageHealth/GetAllChildReferences by replaying heaps dumped from real storages (healthy and corrupted) and comparing outcomes. The defect this check found on the pinned tree (dangling reference to a slab removed through the storage passes the check) was repaired by a fix: commit; see known_findings.txt.",
   "design_ref": "DESIGN.md 7/C20, 8 (F1)",
